@@ -193,7 +193,12 @@ func (h *builderHandler) ArrayEnd() {
 
 func run(name string, rd *sim.SimReader, f func(o *outcome)) *outcome {
 	o := &outcome{Name: name}
+	feStreamed = rd != nil
 	o.Panic, o.Hung = sim.Guard(func() { f(o) })
+	for _, stop := range feStops {
+		stop()
+	}
+	feStops = feStops[:0]
 	if rd != nil {
 		o.Bounds = rd.Bounds
 		o.Calls = rd.Calls
@@ -218,6 +223,9 @@ func collectAny(mode int, n int) (args []any, get func() []any) {
 			return false
 		}}, func() []any { return docs }
 	case modeChan:
+		if feChanCap >= 0 && feStreamed {
+			return boundedCollect(make(chan any, feChanCap), func(v any) any { return v })
+		}
 		ch := make(chan any, n+2)
 		return []any{ch}, func() []any {
 			var docs []any
@@ -232,6 +240,44 @@ func collectAny(mode int, n int) (args []any, get func() []any) {
 		}
 	}
 	return nil, nil
+}
+
+// feChanCap: in channel mode the result channel has this capacity and is served by the simulator's consumer (sim.Consumer),
+// which takes a document only when the call is stalled in a send; -1: a channel with room for every document, read after
+// the call. The sequence of documents delivered must not depend on it.
+var feChanCap = -1
+
+// feStreamed: the execution in progress reads from a simulated reader. The []byte entry points - the baseline the streamed
+// executions are compared with - keep the channel with room for everything.
+var feStreamed bool
+
+// consumers still running for the execution in progress (run ends them if the call did not return normally)
+var feStops []func()
+
+func boundedCollect[T any](ch chan T, conv func(T) any) (args []any, get func() []any) {
+	c := sim.StartConsumer(ch)
+	var docs []any
+	finished := false
+	get = func() []any {
+		if finished {
+			return docs
+		}
+		finished = true
+		got, stalls := c.Finish()
+		for _, v := range got {
+			docs = append(docs, conv(v))
+		}
+		if stalls > 0 {
+			sim.ProbeN("producer_stalled_on_full_channel", stalls)
+		}
+		if late := sim.DrainStray(ch); late > 0 {
+			// not delivered by the time the call returned: not part of what the call delivered, and a disagreement in itself
+			docs = append(docs, fmt.Sprintf("<%d document(s) reached the channel after the call had returned>", late))
+		}
+		return docs
+	}
+	feStops = append(feStops, func() { get() })
+	return []any{ch}, get
 }
 
 // feUsed selects the history of the parser objects the executors use: 0 a fresh object (the zero value),
@@ -454,6 +500,9 @@ func collectGen(mode int, n int) (args []any, get func() []any) {
 			return false
 		}}, func() []any { return docs }
 	case modeChan:
+		if feChanCap >= 0 && feStreamed {
+			return boundedCollect(make(chan gen.Node, feChanCap), func(v gen.Node) any { return v })
+		}
 		ch := make(chan gen.Node, n+2)
 		return []any{ch}, func() []any {
 			var docs []any
